@@ -19,7 +19,7 @@ REQUIRED = ["accept-json-int", "accept-json-float", "accept-dec-string", "accept
             "reject-negative-string", "reject-fraction", "reject-above-range-number", "reject-range-string", "reject-empty-string",
             "reject-not-a-number", "reject-wrong-json-kind", "reject-data-no-prefix", "reject-data-odd", "reject-data-nonhex",
             "reject-address-length", "reject-storage-key-length", "either-float>=2^53", "either-int>=2^64", "accept-near-2^53-float",
-            "accept-2^256-1", "accept-address-20", "accept-storage-key-32", "accept-data-uppercase"]
+            "accept-2^256-1", "accept-address-20", "accept-storage-key-32", "accept-data-uppercase", "reject-bad-fee-field-next-to-older-kind-fields"]
 U256_MAX = 2**256 - 1
 C_MAX = (2**256 - 37) // 2
 
@@ -273,6 +273,19 @@ def gen(shard, rng, tier):
                 f = rng.choice(["maxFeePerGas", "maxPriorityFeePerGas"])
                 yield from both(lib_case("bytes", {"op": "tx.process", "json": _doc(rng, tx, {f: "null"})},
                                          {"cls": "null-fee-field", "expect": "reject", "bucket": "reject-wrong-json-kind", "shown": f + ": null", "tx": None}))
+            if rng.random() < 0.08:
+                # the same for every other non-number, and for documents that would be complete transactions of an older kind
+                # without the offending field (gasPrice and / or accessList present): a fee field that is there and is not a
+                # number is never skipped in favour of "some other reading of the document"
+                tx = _small_tx(rng, rng.choice([reftx.LEGACY, reftx.T2930, reftx.T2930]))
+                f, g = rng.sample(["maxFeePerGas", "maxPriorityFeePerGas"], 2)
+                bad = rng.choice(["null", "-1", "1.5", '""', '"-1"', '"abc"', "true", "[]", "{}", str(2**256), '"%d"' % 2**256, '"0x1%064x"' % 0, "-0.5", '"1.5"'])
+                ov = {f: bad}
+                if rng.random() < 0.7:
+                    ov[g] = txgen.spell_number(rng, rng.randrange(2**40))
+                yield from both(lib_case("bytes", {"op": "tx.process", "json": _doc(rng, tx, ov)},
+                                         {"cls": "bad-fee-field-next-to-older-kind-fields", "expect": "reject", "bucket": "reject-bad-fee-field-next-to-older-kind-fields",
+                                          "shown": "%s: %s with %s" % (f, bad, "accessList" if tx["kind"] == reftx.T2930 else "legacy fields"), "tx": None}))
             if rng.random() < 0.05:
                 # legacy chainId null = no chain id
                 tx = _small_tx(rng, reftx.LEGACY)
